@@ -10,6 +10,7 @@ is exactly what breaks it (`mutex_full_false`), and recovery from every leftover
 -/
 import Rip.Lemmas.AuthLTS
 import Rip.Cex.C18
+import Rip.Gen.AuthRecovery
 namespace Rip.Props.C18
 open Rip.AuthLTS
 
@@ -56,5 +57,15 @@ theorem store_recovers (atomic : Bool) (s0 : S) (h0 : Leftover s0) (hn : 0 < s0.
 theorem drop_removes_foreign_lock :
     holders (run false (initStale 3 false) Rip.Cex.C18.dropStealsSched) = 2 :=
   Rip.Cex.C18.drop_removes_foreign_lock.1
+
+/-- **obligation over the regenerated source**: in the recovery loop of `rip serve`
+(`acquire_authority_lock_with_recovery`) the process whose liveness is checked is the one recorded in
+the lock file that was just read, and that same pid is what the stale cleanup is told to expect — the
+model's `staleReread e` carries exactly this `e`. (Checking the liveness of another record's pid, e.g.
+the endpoint file's, lets a contender remove the lock of a live authority that has not yet published
+its endpoint.) -/
+theorem gen_recovery_checks_the_lock_owner :
+    Rip.Gen.AuthRecovery.livenessOf = [Rip.Gen.AuthRecovery.lockPid] ∧
+    Rip.Gen.AuthRecovery.cleanupExpects = [Rip.Gen.AuthRecovery.lockPid] := by decide
 
 end Rip.Props.C18
